@@ -12,7 +12,7 @@ from . import common, evalcommon as ec
 PROPERTY = 'C14'
 
 META = {
-    'bounds': {'quick': 'ndarray design vectors dim 2; dim<=2, <=2 user objectives, 3 consecutive batches of <=2 designs (worst case), 2 batches (gradient)',
+    'bounds': {'quick': 'one batch of 8/6/4 designs for 1/2/3 parameters; 5-8 parameters; resubmitted designs; ndarray design vectors dim 2; dim<=2, <=2 user objectives, 3 consecutive batches of <=2 designs (worst case), 2 batches (gradient)',
                'thorough': 'dim<=4, batches (2,2,2) and (1,2,1,1), <=2 transient failures; gradient dim<=4, 3 batches'},
     'stubs': ['Problem.evaluate -> uninterpreted function (Ackermann form) + call log',
               'np.zeros inside artap.operators -> object array (so that the gradient array can hold solver terms)'],
